@@ -21,10 +21,12 @@ for line in open(cfgs):
         e["error"] = str(ex)
     bc.append(e)
 cov["build_configs"] = bc
-res = {"mutant": {}, "benign": {}, "seeded": {}}
+res = {"mutant": {}, "benign": {}, "seeded": {}, "archive": {}}
 for line in open(sweep):
     kind, f, verdict = line.rstrip("\n").split("\t")
     name = f.replace("/patch.diff", "").split("/", 1)[1]
+    if kind == "archive":
+        name = f.split("/", 1)[1]
     res[kind].setdefault(verdict or "?", []).append(name)
 def summ(kind, good):
     d = res[kind]
@@ -38,9 +40,11 @@ cov["self_test"] = {
     "mutants": summ("mutant", ("KILLED", "reported")),
     "benign_edits": summ("benign", ("SILENT", "silent")),
     "seeded_changes": summ("seeded", ("KILLED", "reported")),
+    "refactor_archive": summ("archive", ("SILENT", "silent")),
 }
 ev["wall_s"] = float(wall) if float(wall) > ev.get("wall_s", 0) else ev["wall_s"]
 json.dump(ev, open(path, "w"), indent=1)
 m, b, s = cov["self_test"]["mutants"], cov["self_test"]["benign_edits"], cov["self_test"]["seeded_changes"]
-print("%s thorough: %d build configurations; self-test: %d/%d mutants reported, %d/%d benign edits silent, %d/%d seeded changes reported" % (
-    pid, len(bc), m["reported"], m["total"], b["silent"], b["total"], s["reported"], s["total"]))
+a = cov["self_test"]["refactor_archive"]
+print("%s thorough: %d build configurations; self-test: %d/%d mutants reported, %d/%d benign edits silent, %d/%d seeded changes reported, %d/%d archived refactors silent" % (
+    pid, len(bc), m["reported"], m["total"], b["silent"], b["total"], s["reported"], s["total"], a["silent"], a["total"]))
